@@ -294,7 +294,7 @@ def r5_intervals(F, rep, rid, vs):
         rforms = {}
         for lc in (True, False):
             for rc in (True, False):
-                ev = Evaluator(F)
+                ev = Evaluator(F, inline=local_helpers(F))
                 try:
                     outs = ev.run_fn(B + "eval_in_range", [value(k, sym("x")), value("Range", value(k, sym("lo")), mk_bool(lc), value(k, sym("hi")), mk_bool(rc))])
                 except Exception as e:
@@ -349,7 +349,7 @@ def r5_intervals(F, rep, rid, vs):
         for k in names:
             if dict(vs)[k] != 1:
                 continue
-            ev = Evaluator(F)
+            ev = Evaluator(F, inline=local_helpers(F))
             try:
                 outs = ev.run_fn(B + fn, [value(k, sym("l")), value(k, sym("r"))])
             except Exception as e:
@@ -400,6 +400,20 @@ TEMPORAL = "dmntk_feel::temporal::"
 ORD_SPEC = {           # helper -> set of orderings of compare(v1, v2) for which it answers true
     "equal": {"Equal"}, "before": {"Less"}, "before_or_equal": {"Less", "Equal"}, "after": {"Greater"}, "after_or_equal": {"Greater", "Equal"},
 }
+
+
+def local_helpers(F):
+    """private helper functions of feel-evaluator's builders module (extracted blocks such as `is_in_range`, `eval_in_range_temporal`): folded at their call sites.
+    The functions the rules evaluate as entry points and the evaluator builders themselves are not helpers."""
+    out = set()
+    for n, h in F.hir.items():
+        if not n.startswith(B) or "{closure" in n or h.get("kind") != "fn":
+            continue
+        short = n[len(B):]
+        if F.fns.get(n, {}).get("vis") == "pub" or short.startswith("build_") or short in ("eval_ternary_equality", "eval_in_range", "eval_in_list") or short.startswith("eval_in_unary"):
+            continue
+        out.add(n)
+    return out
 
 
 def temporal_fn(F, simple):
